@@ -57,7 +57,26 @@ def main() -> int:
     try:
         if args.replay:
             return mod.replay(args.replay)
-        return mod.check(args.tier, args.seed)
+        try:
+            return mod.check(args.tier, args.seed)
+        except Exception:  # noqa: BLE001
+            # the harness itself did not survive the tree it was pointed at (an entry point it drives was rewritten, or
+            # the implementation raised where the harness expects none): the property is no longer shown to hold
+            import hashlib, json, traceback
+
+            tb = traceback.format_exc()
+            d = os.path.join(common.VERIF, 'replays', pid)
+            os.makedirs(d, exist_ok=True)
+            path = os.path.join(d, 'broken-%s.json' % hashlib.sha1(tb.encode()).hexdigest()[:12])
+            with open(path, 'w') as f:
+                json.dump({'property': pid, 'kind': 'check-did-not-complete', 'tier': args.tier, 'seed': args.seed,
+                           'what': 'the correspondence harness raised before its obligations were decided; no theorem or '
+                                   'correspondence of this property is shown on this tree',
+                           'traceback': tb.splitlines()[-40:]}, f, indent=1)
+            print(tb[-3000:], flush=True)
+            print(f'[{pid}] obligation FAILED: the check ran to completion: {tb.strip().splitlines()[-1][:300]}', flush=True)
+            print(f'VIOLATION property={pid} replay={path} no-failing-input-found', flush=True)
+            return 1
     finally:
         fcntl.flock(lock, fcntl.LOCK_UN)
 
